@@ -190,6 +190,22 @@ PROPS = {
         "real_vs_stub": REAL,
         "assumptions": ["formulas and the reference-time rule are taken from pkg/engine/README.md", "ages are whole simulated seconds (the code reads time.Now().Unix())"],
     },
+    "C16": {
+        "level": "exploration", "quick": 400, "thorough": 20000, "batch": 10,
+        "rule": ("the real server handler chain (recovery, logging, body limit, auth middleware, mux; ServeHTTP with httptest recorders, no sockets) "
+                 "over a simulated engine with a root token; indexes alpha/beta/docsearch/x-traverse and KV keys plain/n-search/find-path/get-links hold "
+                 "marker data; keys for read/write/admin x namespace lists are issued through POST /auth/keys. 20-60 requests per run are drawn from 29 "
+                 "routes (12 mutating, 11 reading, 6 administrative) x resource names (benign and ending in the words the middleware special-cases) x "
+                 "credentials (none, garbage, root, each issued key, revoked, and manipulated tokens: one altered character, alg=none, HS256 signed with "
+                 "the published JWKS, ES256 signed by a foreign key, signature stripped). Oracle per request: no valid credential -> 401 and no state "
+                 "change; read role -> full public read-out unchanged whatever the status; write role on /system/* or /auth/* -> 4xx; a key restricted to "
+                 "namespaces N (no *) never receives marker strings of, nor changes, an index outside N. Then a restart history (none / plain / after "
+                 "snapshot with a later revocation / after compaction / 91 simulated days while closed): revoked keys stay rejected, issued keys stay "
+                 "accepted (or are expired), and the request program is repeated. Non-trivial: >=10 requests; distinct = program hash."),
+        "real_vs_stub": REAL + "; real: internal/server handlers and middleware, pkg/auth; stub: HTTP transport (ServeHTTP + recorder), no embedder",
+        "assumptions": ["documented: KV routes expose _sys_auth::* keys to data roles (accepted scope decision) - not judged; empty namespace lists are not generated",
+                        "route x name x credential product is input enumeration run inside the simulator; the clock (expiry) and restart histories are the simulation-specific part"],
+    },
 }
 
 
@@ -199,6 +215,12 @@ NOT_APPLICABLE["C20"] = ("pure functions of their input (text analysis, chunking
                          "no schedule, fault or interleaving for a simulator to decide; property-based testing territory, see DESIGN.md section 7")
 
 MANIFEST_TEXT = {
+    "C16": {
+        "text": "Seeded exploration of routes x resource names x credentials through the real handler chain over a simulated engine, with a reference policy (401 without valid credential, read never mutates, write never administers, namespace isolation) and restart histories under the simulated clock for revocation, key persistence and expiry.",
+        "design_ref": "DESIGN.md section 6 C16",
+        "note": "29 of the registered routes are covered (the data plane and administration named by the property); request bodies are valid templates, credentials and resource names vary. Sampling, not enumeration.",
+        "technique": "deterministic simulation: seeded request programs through ServeHTTP + synctest clock (expiry) + restart injection, reference access-policy oracle with full read-out comparison",
+    },
     "C15": {
         "text": "Every law is about age = now - reference time and the code reads the clock directly, so the simulated clock ages memories through fractions, exact multiples and many half-lives while a reference implementation of the documented formulas is compared with the score breakdowns of both search paths.",
         "design_ref": "DESIGN.md section 6 C15",
